@@ -342,3 +342,48 @@ Proof. intros HI Hm Hpr Ha Hsv. unfold macro_p. rewrite Hpr, Ha, parse_opts_nil.
     + exact Hf.
 Qed.
 End P.
+
+(* the paragraph break at the start of macroP, for any arguments *)
+Lemma InvL_p_break s : InvL s -> markup_okL (mtags s) -> scope_verse s = false ->
+  InvL (p_break s) /\ view (p_break s) = (sblock s, dtags s, ttitscope s, (false, verse s, sinline s, mtags s)).
+Proof. intros HI Hm Hsv. unfold p_break.
+  pose proof (invl_fmt _ HI) as Hf.
+  destruct (par s) eqn:Ep.
+  - unfold close_spanning.
+    destruct (close_foldL (mtags s) (rev (sinline s)) Hm s Hf eq_refl) as [c [Ec Hc]]. rewrite Ec.
+    set (s1 := process_paragraph (wl c s)).
+    assert (Hsv1 : scope_verse s1 = false).
+    { unfold scope_verse. change (sblock s1) with (let '(sb, _, _, _) := view (wl c s) in sb). rewrite view_wl. exact Hsv. }
+    cbv zeta. rewrite Hsv1. cbn [andb]. unfold end_paragraph.
+    assert (Hf1 : fmt s1 = FL) by (change (fmt s1) with (fmt (wl c s)); rewrite fmt_wl; exact Hf). rewrite Hf1. unfold L.end_paragraph.
+    assert (Hp1 : par s1 = false) by reflexivity.
+    assert (Hw : w (NLs ++ NLs) s1 = s1 <| wout ::= cons (NLs ++ NLs) |>) by (unfold w; rewrite Hp1; reflexivity). rewrite Hw.
+    assert (Ev2 : view (s1 <| wout ::= cons (NLs ++ NLs) |>) = (sblock s, dtags s, ttitscope s, (false, verse s, sinline s, mtags s))).
+    { unfold view. cbn. unfold s1, process_paragraph, wo. cbn.
+      change (sblock (wl c s)) with (let '(sb, _, _, _) := view (wl c s) in sb).
+      change (dtags (wl c s)) with (let '(_, dt, _, _) := view (wl c s) in dt).
+      change (ttitscope (wl c s)) with (let '(_, _, t3, _) := view (wl c s) in t3).
+      change (verse (wl c s)) with (let '(_, _, _, (_, v, _, _)) := view (wl c s) in v).
+      change (sinline (wl c s)) with (let '(_, _, _, (_, _, si, _)) := view (wl c s) in si).
+      change (mtags (wl c s)) with (let '(_, _, _, (_, _, _, mt)) := view (wl c s) in mt).
+      rewrite view_wl. reflexivity. }
+    split; [|exact Ev2].
+    apply (InvL_step s _ (flat c ++ NLs ++ NLs) HI).
+    + unfold out. cbn [wout buf]. unfold s1, process_paragraph, format_paragraph. rewrite fmt_wl, Hf. unfold L.format_paragraph, wo. cbn.
+      rewrite !flat_cons, flat_nil, app_nil_r. change (flat (wout (wl c s)) ++ flat (buf (wl c s))) with (out (wl c s)).
+      rewrite out_wl by (rewrite Ep; discriminate). unfold out. rewrite <- !app_assoc. reflexivity.
+    + unfold depthL at 2. rewrite Ev2. unfold depthL, view, depth_v. rewrite Ep, runL_app. pose proof (Hc 0%nat) as Hc0. rewrite Nat.add_0_r, rev_length in Hc0. rewrite Hc0. reflexivity.
+    + reflexivity.
+    + exact Hf1.
+  - unfold end_paragraph. rewrite Hf. unfold L.end_paragraph.
+    assert (Hw : w NLs s = s <| wout ::= cons NLs |>) by (unfold w; rewrite Ep; reflexivity). rewrite Hw.
+    assert (Ev : view (s <| wout ::= cons NLs |> <| par := false |>) = (sblock s, dtags s, ttitscope s, (false, verse s, sinline s, mtags s))) by reflexivity.
+    split; [|exact Ev].
+    apply (InvL_step s _ NLs HI).
+    + unfold out. cbn. rewrite flat_cons, (invl_buf _ HI Ep), flat_nil, !app_nil_r. reflexivity.
+    + unfold depthL. rewrite Ev. unfold view, depth_v. rewrite Ep. reflexivity.
+    + intros _. exact (invl_buf _ HI Ep).
+    + exact Hf.
+Qed.
+Lemma runL_ptitle t : (forall d, runL t (LTxt, d) = (LTxt, d)) -> forall d, runL (R "\paragraph{" ++ t ++ R "}" ++ NLs) (LTxt, d) = (LTxt, d).
+Proof. intros Ht d. rewrite runL_app. change (runL (R "\paragraph{") (LTxt, d)) with (LTxt, S d). rewrite runL_app, Ht. reflexivity. Qed.
